@@ -1,15 +1,16 @@
 use crate::common::{machinery_failure, Run};
 use serde_json::Value;
 
+pub mod baton_selftest;
 pub mod c01;
 pub mod c02;
 pub mod c04;
 pub mod c05;
+pub mod c06;
 pub mod c07;
 pub mod c08;
 pub mod c11;
 pub mod c13;
-pub mod baton_selftest;
 pub mod c17;
 pub mod c18;
 pub mod c19;
@@ -31,6 +32,7 @@ pub mod c37;
 pub mod c38;
 pub mod c39;
 pub mod c40;
+
 
 pub fn run(id: &str, run: &mut Run) {
     match id {
@@ -64,6 +66,7 @@ pub fn run(id: &str, run: &mut Run) {
         "C17" => c17::run(run),
         "C18" => c18::run(run),
         "C19" => c19::run(run),
+        "C06" => c06::run(run),
         _ => machinery_failure(&format!("no check for property {}", id)),
     }
 }
@@ -100,6 +103,7 @@ pub fn replay(id: &str, case: &Value, run: &mut Run) {
         "C17" => c17::replay(case, run),
         "C18" => c18::replay(case, run),
         "C19" => c19::replay(case, run),
+        "C06" => c06::replay(case, run),
         _ => machinery_failure(&format!("no replay for property {}", id)),
     }
 }
@@ -118,6 +122,7 @@ pub fn child(id: &str, args: &[String]) {
         "C24" => c24::child(args),
         "C29" => c29::child(args),
         "C32" => c32::child(args),
+        "C06" => c06::child(args),
         _ => machinery_failure(&format!("no child mode for property {}", id)),
     }
 }
